@@ -334,7 +334,7 @@ func (fr *Frame) appendOp(c *ssa.CallCommon, args []Value, pc *Term, st *State) 
 		newArr := B.Fresh("apparr", ArraySort(IntSort, lf.Sort))
 		k := B.BoundVar(fmt.Sprintf("ak$%d", x.nextBound()), IntSort)
 		x.assume(pc, B.Forall([]*Term{k}, B.Implies(B.And(B.Le(B.Int(0), k), B.Lt(k, s.L[2])),
-			B.Eq(B.Select(newArr, k), B.Select(oldArr, B.Add(s.L[1], k))))), "append keeps prefix")
+			B.Eq(B.Select(newArr, k), B.Select(oldArr, B.Index(s.L[1], k))))), "append keeps prefix")
 		if !isStr {
 			addArr := B.Select(h, add.L[0])
 			if addLen.IsLit() && addLen.Val.IsInt64() && addLen.Val.Int64() <= 8 {
@@ -387,7 +387,7 @@ func (fr *Frame) copyOp(c *ssa.CallCommon, args []Value, pc *Term, st *State) *T
 		k := B.BoundVar(fmt.Sprintf("ck$%d", x.nextBound()), IntSort)
 		in := B.And(B.Le(dst.L[1], k), B.Lt(k, B.Add(dst.L[1], n)))
 		x.assume(pc, B.Forall([]*Term{k}, B.Eq(B.Select(newArr, k),
-			B.Ite(in, B.Select(sa, B.Add(srcOff, B.Sub(k, dst.L[1]))), B.Select(oldArr, k)))), "copy semantics")
+			B.Ite(in, B.Select(sa, B.Index(srcOff, B.Sub(k, dst.L[1]))), B.Select(oldArr, k)))), "copy semantics")
 		x.heapSet(st, hn, B.Store(h, dst.L[0], newArr))
 	}
 	return n
@@ -519,7 +519,9 @@ func (fr *Frame) applyContract(ct *Contract, callee *ssa.Function, sig *types.Si
 	for _, cb := range ct.Calls {
 		for i, n := range names {
 			if n == cb.Names[0] {
+				fr.cbOnce = cb.Label == "once"
 				lam := fr.runCallbackWith(args[i], pc, st, pos, cb.Expr, env)
+				fr.cbOnce = false
 				if cb.Handle != "" && lam != nil {
 					lambdas[cb.Handle] = lam
 				}
@@ -716,9 +718,9 @@ func (fr *Frame) havocModifies(names []string, env *Env, st *State, pc *Term) {
 		switch {
 		case n == "*":
 			x.havocAll(st)
-			for id, v := range st.cells {
+			for _, id := range sortedCellIDs(st.cells) {
 				if x.cellEscaped[id] {
-					st.cells[id] = x.freshValue(v.T, "cell")
+					st.cells[id] = x.freshValue(st.cells[id].T, "cell")
 				}
 			}
 			return
@@ -1045,7 +1047,10 @@ func (fr *Frame) runCallbackWith(fv Value, pc *Term, st *State, pos string, cond
 			}
 		}
 	}
-	havoc()
+	once := fr.cbOnce
+	if !once {
+		havoc()
+	}
 	if cct := x.W.ContractFor(cl.Fn); cct != nil {
 		// verified separately against its own contract; its preconditions
 		// must hold whenever the external function may call it
@@ -1077,7 +1082,11 @@ func (fr *Frame) runCallbackWith(fv Value, pc *Term, st *State, pos string, cond
 	nf := x.newFrame(cl.Fn, params, cl.Bind, fr.depth+1)
 	nf.inDefer = fr.inDefer
 	s1 := st.clone()
-	_, _, rvals := nf.run(pc, s1)
+	rpc1, rst1, rvals := nf.run(pc, s1)
+	if once && !rpc1.IsFalse() {
+		*st = *rst1
+		return nil
+	}
 	havoc()
 	if len(rvals) == 1 && len(rvals[0].L) == 1 {
 		lam := &Lambda{Result: rvals[0].L[0]}
@@ -1494,13 +1503,10 @@ func (w *World) computeModSets() {
 							}
 						}
 					}
-					if c.IsInvoke() {
-						key := "(" + types.TypeString(types.Unalias(c.Value.Type()), nil) + ")." + c.Method.Name()
-						if ct, ok := w.Specs.Contracts[key]; ok && ct.HasMod {
-							for _, n := range ct.Modifies {
-								if strings.HasPrefix(n, "ghost.") {
-									ms.names["ghost:"+strings.TrimPrefix(n, "ghost.")] = true
-								}
+					if ct := w.ifaceContract(c); ct != nil && ct.HasMod {
+						for _, n := range ct.Modifies {
+							if strings.HasPrefix(n, "ghost.") {
+								ms.names["ghost:"+strings.TrimPrefix(n, "ghost.")] = true
 							}
 						}
 					}
@@ -1518,9 +1524,8 @@ func (w *World) computeModSets() {
 							}
 						}
 					}
-					if c.IsInvoke() {
-						key := "(" + types.TypeString(types.Unalias(c.Value.Type()), nil) + ")." + c.Method.Name()
-						if ct, ok := w.Specs.Contracts[key]; ok {
+					if ct := w.ifaceContract(c); ct != nil {
+						{
 							hasExtContract = true
 							for _, n := range ct.Modifies {
 								if strings.HasPrefix(n, "contents(") {
@@ -1645,9 +1650,9 @@ func (fr *Frame) applyModSet(ms *ModSet, st *State, args []Value) {
 	if ms.all {
 		// everything reachable through escaped pointers ...
 		x.havocAll(st)
-		for id, v := range st.cells {
+		for _, id := range sortedCellIDs(st.cells) {
 			if x.cellEscaped[id] {
-				st.cells[id] = x.freshValue(v.T, "cell")
+				st.cells[id] = x.freshValue(st.cells[id].T, "cell")
 			}
 		}
 	}
@@ -1671,9 +1676,9 @@ func (fr *Frame) applyModSet(ms *ModSet, st *State, args []Value) {
 		}
 	}
 	if ms.freeVars[-1] {
-		for id, v := range st.cells {
+		for _, id := range sortedCellIDs(st.cells) {
 			if x.cellEscaped[id] {
-				st.cells[id] = x.freshValue(v.T, "cell")
+				st.cells[id] = x.freshValue(st.cells[id].T, "cell")
 			}
 		}
 	}
@@ -1831,7 +1836,28 @@ func (fr *Frame) loopModSet(lp *Loop, st *State) *modSet {
 					}
 				} else {
 					addMS(x.W.dynModSet(c), nil)
-					fr.externArgMods(c, out)
+					if ct := x.W.ifaceContract(c); ct != nil {
+						// the interface method's contract says what a call may change
+						for _, n := range ct.Modifies {
+							switch {
+							case n == "*":
+								out.all = true
+							case strings.HasPrefix(n, "ghost."):
+								out.names["ghost:"+strings.TrimPrefix(n, "ghost.")] = true
+							case len(n) > 2 && n[1] == ':':
+								out.names[n] = true
+							case strings.HasPrefix(n, "contents("):
+								out.names[contentsHeapNameExt(n, ct, c)] = true
+							case n != "nothing":
+								out.names["F:"+n] = true
+							}
+						}
+						if !ct.HasMod && !ct.Pure {
+							fr.externArgMods(c, out)
+						}
+					} else {
+						fr.externArgMods(c, out)
+					}
 				}
 			}
 		}
@@ -1982,6 +2008,7 @@ func (fr *Frame) atCallAsserts(c *ssa.CallCommon, callee *ssa.Function, args []V
 	}
 	if c.IsInvoke() {
 		names = append(names, "("+types.TypeString(types.Unalias(c.Value.Type()), nil)+")."+c.Method.Name())
+		names = append(names, "("+shortTypeKey(types.Unalias(c.Value.Type()))+")."+c.Method.Name())
 	}
 	for _, cl := range fr.contract.AtCalls {
 		if !x.active(cl) || !contains(names, cl.Names[0]) {
@@ -2091,7 +2118,13 @@ func (x *X) havocGhostOf(st *State, a Value) {
 	default:
 		return
 	}
-	for name, g := range x.W.Specs.Ghosts {
+	var gnames []string
+	for name := range x.W.Specs.Ghosts {
+		gnames = append(gnames, name)
+	}
+	sort.Strings(gnames)
+	for _, name := range gnames {
+		g := x.W.Specs.Ghosts[name]
 		if g.Sort != "ObjIntArray" && g.Sort != "ObjSet" {
 			continue // only ghost state indexed by object identity
 		}
@@ -2127,7 +2160,7 @@ func (w *World) ghostMods(fn *ssa.Function) []string {
 					if sc := c.StaticCallee(); sc != nil && !inRepo(sc) {
 						ct = w.Specs.Contracts[externName(sc)]
 					} else if c.IsInvoke() {
-						ct = w.Specs.Contracts["("+types.TypeString(types.Unalias(c.Value.Type()), nil)+")."+c.Method.Name()]
+						ct = w.ifaceContract(c)
 					}
 					if ct != nil {
 						for _, n := range ct.Modifies {
@@ -2209,6 +2242,7 @@ func (fr *Frame) callSiteOrdinal(name string, c *ssa.CallCommon) int {
 			}
 			if cc.IsInvoke() {
 				ns = append(ns, "("+types.TypeString(types.Unalias(cc.Value.Type()), nil)+")."+cc.Method.Name())
+				ns = append(ns, "("+shortTypeKey(types.Unalias(cc.Value.Type()))+")."+cc.Method.Name())
 			}
 			if contains(ns, name) {
 				poss = append(poss, cc.Pos())
@@ -2222,4 +2256,20 @@ func (fr *Frame) callSiteOrdinal(name string, c *ssa.CallCommon) int {
 		}
 	}
 	return 0
+}
+
+// ifaceContract returns the contract attached to the interface method an
+// invoke-mode call names (full or short type name), or nil.
+func (w *World) ifaceContract(c *ssa.CallCommon) *Contract {
+	if !c.IsInvoke() {
+		return nil
+	}
+	recvT := types.Unalias(c.Value.Type())
+	if ct, ok := w.Specs.Contracts["("+types.TypeString(recvT, nil)+")."+c.Method.Name()]; ok {
+		return ct
+	}
+	if ct, ok := w.Specs.Contracts["("+shortTypeKey(recvT)+")."+c.Method.Name()]; ok {
+		return ct
+	}
+	return nil
 }
